@@ -44,4 +44,42 @@ def closedAfter (s : State) : Bool :=
 /-- the strict reading: no player thread alive at all -/
 def noneAlive (s : State) : Bool := s.players.all (fun (p : Player) => p.pc == PPc.done)
 
+/-! ### lock order -/
+
+inductive LockId where
+  | hlock              -- `AudioIO.halting`
+  | tlock (i : Nat)    -- `AudioThread.lock` of player i
+  | mlock              -- `AudioIO.lock`
+  deriving DecidableEq, Repr
+
+/-- the order in which locks may be nested: halting, then a thread lock, then the manager lock -/
+def lockRank : LockId → Nat
+  | .hlock => 0
+  | .tlock _ => 1
+  | .mlock => 2
+
+/-- thread `t` is the owner recorded in the lock -/
+def holds (s : State) (t : Tid) : LockId → Prop
+  | .hlock => s.hlock = some t
+  | .mlock => s.mlock = some t
+  | .tlock i => ∃ p, s.players[i]? = some p ∧ p.lk = some t
+
+def wantsMain : MPc → Option LockId
+  | .pAcq _ => some .mlock
+  | .cAcq _ i => some (.tlock i)
+  | .kHAcq => some .hlock
+  | .kMAcq => some .mlock
+  | .kSAcq i => some (.tlock i)
+  | _ => none
+
+def wantsPlayer (i : Nat) : PPc → Option LockId
+  | .finAcq => some (.tlock i)
+  | .tfAcq => some .mlock
+  | _ => none
+
+/-- the lock whose acquisition is the pending operation of thread `t` -/
+def wants (s : State) : Tid → Option LockId
+  | .main => wantsMain s.mpc
+  | .player i => ((s.players[i]?).map (·.pc)).bind (wantsPlayer i)
+
 end ALV.C17
